@@ -28,18 +28,42 @@ func runC03(res *hx.Result, rng *hx.Rng, tier string, outdir string) {
 	cfg, sw := wireSwitches(res, "value_reader_no_len", "refl_drop8")
 	cs := hx.NewCases(outdir, "C03", "From QV Require Import Wire ParseOpt C03Run.", "mismatches cfg cases", res, "cases", "c03case")
 	cs.Extra = append(cs.Extra, cfg)
-	for i := 0; i < n; i++ {
-		t := wg.GenTy(rng, opts, 0)
-		if rng.Chance(0.1) {
-			// scalars at top level get their share
-			t = wg.Scalar(string(opts.Scalars[rng.Intn(len(opts.Scalars))]))
+	// directed: every scalar kind in every container position, and the containers of zero-width
+	// elements, each with a value whose containers are all non-empty and with a random one
+	type tyVal struct {
+		t *wg.Ty
+		v *wg.Val
+	}
+	var pre []tyVal
+	for _, t := range wg.DirectedTys(opts.Scalars, opts.KeyScalar, true) {
+		if t.HasScalar("cC") && sw["refl_drop8"] {
+			continue
 		}
-		maxLen := 3
-		has8 := t.HasScalar("cC")
-		if has8 && sw["refl_drop8"] {
-			maxLen = 1 // the map order an encoder picked cannot be learnt from bytes that miss fields
+		pre = append(pre, tyVal{t, wg.GenValFull(rng, t, 2)}, tyVal{t, wg.GenVal(rng, t, 3)})
+	}
+	for i := 0; i < n+len(pre); i++ {
+		var t *wg.Ty
+		var v *wg.Val
+		has8 := false
+		if i < len(pre) {
+			t, v = pre[i].t, pre[i].v
+			has8 = t.HasScalar("cC")
+			res.Dist("directed")
+		} else {
+			o := opts
+			o.ZeroWidthElems = rng.Chance(0.15)
+			t = wg.GenTy(rng, o, 0)
+			if rng.Chance(0.1) {
+				// scalars at top level get their share
+				t = wg.Scalar(string(opts.Scalars[rng.Intn(len(opts.Scalars))]))
+			}
+			maxLen := 3
+			has8 = t.HasScalar("cC")
+			if has8 && sw["refl_drop8"] {
+				maxLen = 1 // the map order an encoder picked cannot be learnt from bytes that miss fields
+			}
+			v = wg.GenVal(rng, t, maxLen)
 		}
-		v := wg.GenVal(rng, t, maxLen)
 		sig := t.Sig()
 		inRefl := !t.HasScalar("mX")
 		rt, okT := goType(sig)
@@ -107,6 +131,28 @@ func runC03(res *hx.Result, rng *hx.Rng, tier string, outdir string) {
 				}
 			}
 		}
+		// oracle: what the stream hands out per Read call does not matter (a bytes.Buffer as the bus
+		// passes, one byte per call, the last bytes together with io.EOF)
+		for rk := 1; rk <= 3; rk++ {
+			readerKind = rk
+			rd2 := sigRead(sig, input)
+			if rd2.class != rd.class || !bytes.Equal(rd2.data, rd.data) || rd2.left != rd.left {
+				res.Fail("reader-fragmentation", fmt.Sprintf("signature %q input %x: the reader returns class %d, %x, %d left from a *bytes.Reader and class %d, %x, %d left from reader kind %d (1 = *bytes.Buffer, 2 = one byte per Read, 3 = data together with EOF)",
+					sig, input, rd.class, rd.data, rd.left, rd2.class, rd2.data, rd2.left, rk))
+			}
+			if inRefl {
+				de2 := reflDec(rt, t, input)
+				if de2.class != de.class || de2.left != de.left || (de.val != nil && de2.val != nil && de2.val.Canon() != de.val.Canon()) {
+					got := "<none>"
+					if de2.val != nil {
+						got = de2.val.Canon()
+					}
+					res.Fail("decoder-fragmentation", fmt.Sprintf("signature %q input %x: the reflection decoder gives class %d, %s, %d left from a *bytes.Reader and class %d, %s, %d left from reader kind %d (1 = *bytes.Buffer, 2 = one byte per Read, 3 = data together with EOF)",
+						sig, input, de.class, valOrNil(de.val), de.left, de2.class, got, de2.left, rk))
+				}
+			}
+		}
+		readerKind = 0
 		nontrivial := t.Depth() >= 2 || t.HasScalar("cCwW") || t.Has(func(x *wg.Ty) bool { return x.K == wg.KMap })
 		res.Count(sig+"|"+v.Canon()+"|"+fmt.Sprintf("%x", trail), nontrivial)
 		res.Dist(fmt.Sprintf("depth:%d", t.Depth()))
